@@ -91,7 +91,7 @@ VARIANTS = [("tree_vm", ["-DBK_VM"], False), ("tree_vm_etls", ["-DBK_VM", "-DTLS
 
 def build_guestlibs():
     """two shared libraries exporting the same names (dylib backend)"""
-    d = os.path.join(vp.CACHE, "bin")
+    d = os.path.join(vp.CACHE, "bin" + os.environ.get("VERIF_WORK_SUFFIX", ""))
     os.makedirs(d, exist_ok=True)
     outs = []
     src = os.path.join(vp.HARNESS, "guestlib.c")
